@@ -159,10 +159,9 @@ class Ctx:
                         self.extra[k].setdefault(kk, vv)
             else:
                 self.extra.setdefault(k, v)
-        for fn, lines in st.get("reach", {}).items():
-            cur = set(self.reach.get(fn, []))
-            cur.update(lines)
-            self.reach[fn] = sorted(cur)
+        for fn, rec in st.get("reach", {}).items():
+            cur = self.reach.setdefault(fn, {"executed": [], "of": rec.get("of", 0)})
+            cur["executed"] = sorted(set(cur["executed"]) | set(rec.get("executed", [])))
 
     # ---- finishing ------------------------------------------------------
     def finish(self, rule: str, floors: dict[str, int] | None = None, exhaustive=False) -> int:
